@@ -219,6 +219,9 @@ def response (linein : List Byte) (off : Nat) (prompt : List Byte) : M (Int ⊕ 
       let (r, line) ← authGetl
       if r < 0 then pure (.inl r) else pure (.inr line)
 
+/-- `username_invalid()`: the decoded user name contains a control character -/
+def usernameInvalid (user : List Byte) : Bool := user.any (fun c => c < 32 || c == 127)
+
 /-- `auth_login(user)`: result and the value left in `*user` -/
 def authLogin (linein : List Byte) (bk : Backend) : M (Int × List Byte) := do
   match ← response linein Gen.authLoginArgOffset Gen.authLoginUser with
@@ -238,7 +241,7 @@ def authLogin (linein : List Byte) (bk : Backend) : M (Int × List Byte) := do
           | .error (.fault f) => fault f
           | .error .bad => do let r ← errBase64; pure (r, user)
           | .ok pass =>
-            if user = [] ∨ pass = [] then do let r ← errInput; pure (r, user)
+            if user = [] ∨ pass = [] ∨ usernameInvalid user then do let r ← errInput; pure (r, user)
             else do let r ← backend bk user pass; pure (r, user)
 
 /-- C string starting at `s[k]` inside a decoded buffer: up to the next NUL (the buffer is always
@@ -264,7 +267,7 @@ def authPlain (linein : List Byte) (bk : Backend) : M (Int × List Byte) := do
     | .error .bad => do let r ← errBase64; pure (r, [])
     | .ok slop =>
       let (user, pass) := plainFields slop
-      if user = [] ∨ pass = [] then do let r ← errInput; pure (r, user)
+      if user = [] ∨ pass = [] ∨ usernameInvalid user then do let r ← errInput; pure (r, user)
       else do let r ← backend bk user pass; pure (r, user)
 
 /-! ### smtp_auth -/
